@@ -29,6 +29,7 @@ class FunctionResult:
         self.paths = 0
         self.exit_kinds = {}
         self.inlined = set()
+        self.auto_inlined = set()
         self.used_contracts = set()
         self.dispatch_sites = {}
         self.decls: Decls = None
@@ -69,6 +70,7 @@ class Exec(HeapMixin, SpecEvalMixin, ExprMixin, StmtMixin, CallMixin):
         self.verifying = fname
         self.loop_ordinal = {}
         self.inlined = set()
+        self.auto_inlined = set()
         self.used_contracts = set()
         self.dispatch_sites = {}
         self.entry_state = None
@@ -160,6 +162,7 @@ class Exec(HeapMixin, SpecEvalMixin, ExprMixin, StmtMixin, CallMixin):
             res.unsupported = "recursion limit in the executor"
         res.obligations = self.obligations
         res.inlined = set(self.inlined)
+        res.auto_inlined = set(getattr(self, 'auto_inlined', set()))
         res.used_contracts = set(self.used_contracts)
         res.dispatch_sites = dict(self.dispatch_sites)
         res.regions_used = set(self.regions_used)
